@@ -160,29 +160,30 @@ class Gen:
         d["fields"].append(fld("t0", e, r.random() < 0.5, e["syms"][0]))
         syms = list(e["syms"])
         r.shuffle(syms)
-        for i in range(r.choice([2, 2, 3])):
-            d["fields"].append(fld("t%d" % (i + 1), {"k": "ref", "full": e["full"]}, r.random() < 0.85, syms[i]))
-        leaf = r.choice(["int", "long", "string", "double", "boolean"])
-        lv = {"int": [1, -2, 3], "long": [2 ** 40, 0, -1], "string": ["x", "é", ""], "double": [1.5, -2.0, 0.25], "boolean": [True, False, True]}[leaf]
-        lt = {"k": "prim", "name": leaf}
-        shape = r.choice(["aa", "ma", "am", "mm", "aaa"])
-        if shape == "aa":
-            t, dv = {"k": "array", "items": {"k": "array", "items": lt}}, [[lv[0], lv[1]], [lv[2]]]
-        elif shape == "ma":
-            t, dv = {"k": "map", "values": {"k": "array", "items": lt}}, {"k1": [lv[0]], "é": [lv[1], lv[2]]}
-        elif shape == "am":
-            t, dv = {"k": "array", "items": {"k": "map", "values": lt}}, [{"k1": lv[0]}, {"k2": lv[1], "k1": lv[2]}]
-        elif shape == "mm":
-            t, dv = {"k": "map", "values": {"k": "map", "values": lt}}, {"o": {"i": lv[0], "j": lv[1]}}
-        else:
-            t, dv = {"k": "array", "items": {"k": "array", "items": {"k": "array", "items": lt}}}, [[[lv[0]], [lv[1], lv[2]]]]
-        d["fields"].append(fld("nest", t, True, dv))
-        for fn in r.sample(["a", "b", "c", "id"], r.choice([0, 1, 2])):
-            d["fields"].append(fld(fn, self.typ(1, ns)))
-        r.shuffle(d["fields"])
-        if not any(f["name"] == "t0" for f in d["fields"][:1]):
-            # the definition must come before the references: move t0 first
-            d["fields"].sort(key=lambda f: f["name"] != "t0")
+        slots = ["t%d" % (i + 1) for i in range(r.choice([2, 2, 3]))] + ["nest"] + r.sample(["a", "b", "c", "id"], r.choice([0, 1, 2]))
+        r.shuffle(slots)            # fields are built in their final order: a reference never precedes the definition
+        for sl in slots:
+            if sl.startswith("t"):
+                d["fields"].append(fld(sl, {"k": "ref", "full": e["full"]}, r.random() < 0.85, syms[int(sl[1:]) - 1]))
+            elif sl == "nest":
+                leaf = r.choice(["int", "long", "string", "double", "boolean"])
+                lv = {"int": [1, -2, 3], "long": [2 ** 40, 0, -1], "string": ["x", "é", ""], "double": [1.5, -2.0, 0.25],
+                      "boolean": [True, False, True]}[leaf]
+                lt = {"k": "prim", "name": leaf}
+                shape = r.choice(["aa", "ma", "am", "mm", "aaa"])
+                if shape == "aa":
+                    t, dv = {"k": "array", "items": {"k": "array", "items": lt}}, [[lv[0], lv[1]], [lv[2]]]
+                elif shape == "ma":
+                    t, dv = {"k": "map", "values": {"k": "array", "items": lt}}, {"k1": [lv[0]], "é": [lv[1], lv[2]]}
+                elif shape == "am":
+                    t, dv = {"k": "array", "items": {"k": "map", "values": lt}}, [{"k1": lv[0]}, {"k2": lv[1], "k1": lv[2]}]
+                elif shape == "mm":
+                    t, dv = {"k": "map", "values": {"k": "map", "values": lt}}, {"o": {"i": lv[0], "j": lv[1]}}
+                else:
+                    t, dv = {"k": "array", "items": {"k": "array", "items": {"k": "array", "items": lt}}}, [[[lv[0]], [lv[1], lv[2]]]]
+                d["fields"].append(fld("nest", t, True, dv))
+            else:
+                d["fields"].append(fld(sl, self.typ(1, ns)))
         self.open.pop()
         return d
 
